@@ -173,7 +173,12 @@ class WebSocketWriter:
     def _get_compressor(self, compress: int | None) -> ZLibCompressor:
         """Get or create a compressor object for the given compression level."""
         if compress:
-            # Do not set self._compress if compressing is for this frame
+            # Do not set self._compress if compressing is for this frame.
+            # The receiver inflates every message with its one session
+            # context, which now also sees this message: our session
+            # compressor's history no longer matches it, so start it afresh
+            # for the next session-compressed message.
+            self._compressobj = None
             return ZLibCompressor(
                 level=ZLibBackend.Z_BEST_SPEED,
                 wbits=-compress,
